@@ -674,11 +674,12 @@ Qed.
 Print Assumptions lzma2_roundtrip.
 
 (* ---------------------------------------------------------------------------------------------
-   With a (non-empty) preset dictionary.  Proved for a dictionary size the reader does not round
-   (multiple of 16, at least 4096: otherwise the reader keeps more of a long preset than the writer
-   model's view has) and a preset shorter than the dictionary (a preset that fills the window makes
-   the first loop iteration of the reader return no bytes - it only wraps the write position -
-   which the per-iteration progress lemma [iter_step] excludes; not proved here).  The EMPTY preset
+   With a (non-empty) preset dictionary.  Proved for a preset not longer than the dictionary size
+   and shorter than the reader's window.  Not proved: (1) a preset that fills the window (the first
+   loop iteration of the reader then returns no bytes - it only wraps the write position - which
+   the per-iteration progress lemma [iter_step] excludes); (2) a preset longer than a dictionary
+   size that the reader rounds up: the reader then keeps more of the preset than the writer model's
+   view has, positions differ by a constant and the two runs are isomorphic, not equal.  The EMPTY preset
    is refuted in Lzma2ExamplesProofs.v (lzma2_empty_preset_refuted). *)
 Lemma aset_list_app a : forall b t i, aset_list t i (a ++ b) = aset_list (aset_list t i a) (i + zlen a) b.
 Proof.
@@ -741,9 +742,9 @@ Proof.
 Qed.
 
 Theorem lzma2_roundtrip_preset : forall lc lp pb dict p data evs stream tail sizes,
-  0 <= lc -> 0 <= lp -> lc + lp <= 4 -> 0 <= pb <= 4 ->
-  4096 <= dict <= 2147483648 -> dict mod 16 = 0 ->
-  p <> [] -> zlen p < dict -> bytes_ok p = true -> bytes_ok data = true ->
+  0 <= lc -> 0 <= lp -> lc + lp <= 4 -> 0 <= pb <= 4 -> dict <= 2147483648 ->
+  p <> [] -> zlen p <= dict -> zlen p < l2_window_size dict ->
+  bytes_ok p = true -> bytes_ok data = true ->
   l2_no_end evs ->
   lzma2_write lc lp pb dict (Some p) data evs = Ok stream ->
   Forall (fun z => 0 < z) sizes ->
@@ -751,21 +752,23 @@ Theorem lzma2_roundtrip_preset : forall lc lp pb dict p data evs stream tail siz
     forall fuel, (length data + 2 <= fuel)%nat ->
     exists s_end, lzma2_read_all fuel s0 sizes sizes [] = Ok (data, 0, s_end) /\ m_in s_end = tail.
 Proof.
-  intros lc lp pb dict p data evs stream tail sizes Hlc Hlp Hs Hpb Hdict H16 Hpne Hplen Hpb' Hbytes Hne Hw Hsizes.
-  pose proof (lzma2_frame_sync lc lp pb dict (Some p) data evs stream ltac:(lia) Hne Hw) as Hck.
+  intros lc lp pb dict p data evs stream tail sizes Hlc Hlp Hs Hpb Hdict Hpne Hplen Hplen' Hpb' Hbytes Hne Hw Hsizes.
+  pose proof (lzma2_frame_sync lc lp pb dict (Some p) data evs stream Hdict Hne Hw) as Hck.
   cbn [start_level preset_list] in Hck.
-  unfold lzma2_new, lzma2_get_dict_size. cbn [obind].
-  replace ((Z.min (Z.max dict 4096) 4294967280 + 15) / 16 * 16) with dict by lia.
+  unfold lzma2_new, lzma2_get_dict_size. cbn [obind]. fold (l2_window_size dict).
   eexists. split; [reflexivity|]. intros fuel Hf.
   set (h0 := ehist_new dict p data) in *.
   destruct (ehist_new_rel dict p data) as (Hhr & Hdf). fold h0 in Hhr, Hdf.
+  assert (Hws : 0 < l2_window_size dict /\ l2_window_size dict mod 16 = 0 /\ dict <= l2_window_size dict)
+    by (unfold l2_window_size; lia).
+  destruct Hws as (Hws1 & Hws2 & Hws3).
   assert (Hdata : forall i, 0 <= aget 0 (h_data h0) i < 256).
   { intros i. apply (data_ok_new dict p data Hpb' Hbytes i). }
   assert (Hhas : match p with _ :: _ => true | [] => false end = true) by (destruct p; [congruence | reflexivity]).
   pose proof (zlen_nonneg p) as Hpz.
   match goal with |- exists s_end, lzma2_read_all _ ?s0 _ _ _ = _ /\ _ =>
-    destruct (read_chunks lc lp pb dict dict tail (h_data h0) (h_total h0) Hlc Hlp Hs Hpb ltac:(lia)
-                ltac:(lia) ltac:(lia) H16 Hdata RProps h0 stream s0 sizes fuel Hck) as (s_end & Hr & Ht)
+    destruct (read_chunks lc lp pb dict (l2_window_size dict) tail (h_data h0) (h_total h0) Hlc Hlp Hs Hpb Hdict
+                Hws3 Hws1 Hws2 Hdata RProps h0 stream s0 sizes fuel Hck) as (s_end & Hr & Ht)
   end.
   - unfold at_boundary. msimpl. rewrite Hhas. cbn [negb].
     split; [reflexivity|]. split; [reflexivity|]. split; [reflexivity|]. split; [reflexivity|].
@@ -773,8 +776,10 @@ Proof.
     split; [|unfold hfix; repeat split; reflexivity].
     unfold sync_win. split; [reflexivity|]. split; [reflexivity|].
     exists (rev (preset_kept dict p)). split; [|exact Hhr].
-    unfold win_ok. split; [apply lzwin_new_preset_rel; lia|].
-    unfold lzwin_new. cbn [w_size w_start w_pos]. repeat split; lia.
+    unfold win_ok. split.
+    + unfold preset_kept. replace (Z.min (zlen p) dict) with (Z.min (zlen p) (l2_window_size dict)) by lia.
+      apply lzwin_new_preset_rel; assumption.
+    + unfold lzwin_new. cbn [w_size w_start w_pos]. repeat split; lia.
   - reflexivity.
   - exact Hsizes.
   - rewrite Hdf. exact Hf.
